@@ -5,7 +5,7 @@ type modItem struct {
 	Item
 }
 
-var fingerprintDirs = []string{"net/packet", "net", "net/CFB8", "level", "save/region", "nbt", "nbt/dynbt", "offline", "net/queue", "chat", "bot", "server/auth", "server/command"}
+var fingerprintDirs = []string{"net/packet", "net", "net/CFB8", "level", "save/region", "nbt", "nbt/dynbt", "offline", "net/queue", "chat", "bot", "server/auth", "server/command", "yggdrasil/user"}
 
 // The whitelist: every item is regenerated from /repo on every run.
 var items = []modItem{
@@ -22,4 +22,7 @@ var items = []modItem{
 	{"Packet", Item{Dir: "net/packet", Kind: "expr", Recv: "Position", Func: "ReadFrom", Local: "x", Name: "Position_unpackX"}},
 	{"Packet", Item{Dir: "net/packet", Kind: "expr", Recv: "Position", Func: "ReadFrom", Local: "y", Name: "Position_unpackY"}},
 	{"Packet", Item{Dir: "net/packet", Kind: "expr", Recv: "Position", Func: "ReadFrom", Local: "z", Name: "Position_unpackZ"}},
+	// ---- offline (C18) ----
+	{"Offline", Item{Dir: "offline", Kind: "assign", Func: "NameToUUID", Local: "id[6]", Elem: "uint8", Name: "NameToUUID_byte6"}},
+	{"Offline", Item{Dir: "offline", Kind: "assign", Func: "NameToUUID", Local: "id[8]", Elem: "uint8", Name: "NameToUUID_byte8"}},
 }
